@@ -138,9 +138,10 @@ def _generate_a_indptr(num_states, s_indices, out):
 
     """
     idx = 0
+    L = len(s_indices)
     out[0] = 0
     for s in range(num_states-1):
-        while(s_indices[idx] == s):
+        while(idx < L and s_indices[idx] == s):
             idx += 1
         out[s+1] = idx
     out[num_states] = len(s_indices)
